@@ -262,7 +262,7 @@ class Gen:
 
     def module(self, nfun: int = 6) -> tuple[str, list[dict]]:
         rng = self.rng
-        head = f'"""generated"""\nimport math\nimport {self.helper}\nfrom {self.helper} import h2\n\nC1 = 1.25\n\n\n'
+        head = f'"""generated"""\nimport math\nimport {self.helper}\nfrom {self.helper} import h2\n\nC1 = 1.25\ny = 0.75  # shadowed by the argument y wherever a function has one\n\n\n'
         src = [head]
         meta: list[dict] = []
         fns: list[tuple[str, int]] = [(f"{self.helper}.h1", 1), ("h2", 2), (f"{self.helper}.h3", 2)]
